@@ -42,10 +42,10 @@ pub struct ReplicaProp {
 }
 
 #[derive(Default)]
-struct Monitor {
-    last_view: u64,
-    last_hcqc: Option<u64>,
-    last_htqc: Option<u64>,
+pub struct Monitor {
+    pub last_view: u64,
+    pub last_hcqc: Option<u64>,
+    pub last_htqc: Option<u64>,
     max_commit_views: usize,
     max_commit_qcs: usize,
     max_timeout_qcs: usize,
@@ -195,7 +195,10 @@ impl ReplicaProp {
                     why = json!(class.clone());
                 }
                 out.count(&format!("class={class}"));
-                let effects: Vec<Value> = obs.events.iter().map(|e| sum_event(&mut s.w, e)).collect();
+                // `queue_next_block` is called by the store's background task: its position relative to the handler's own
+                // effects is scheduling-dependent, so queue effects are listed after the others (DESIGN 2.3, canonicalisation)
+                let mut effects: Vec<Value> = obs.events.iter().filter(|e| !matches!(e, Ev::Queue(_))).map(|e| sum_event(&mut s.w, e)).collect();
+                effects.extend(obs.events.iter().filter(|e| matches!(e, Ev::Queue(_))).map(|e| sum_event(&mut s.w, e)));
                 for e in &obs.events {
                     if let Ev::Notify(j) = e {
                         let n = s.weights.len();
@@ -210,7 +213,7 @@ impl ReplicaProp {
                 }
                 let snap = s.rig.snapshot();
                 // ---- monitors on the implementation (S)
-                self_monitors(self.pid, &mut self.mon, s, &obs.events, &snap, &op, out);
+                self_monitors(&mut self.mon, &s.w, &s.rig, &obs.events, &snap, &op, out);
                 let snapj = sum_snapshot(&mut s.w, &snap);
                 (op, json!({"class": class, "_why": why, "effects": effects, "snap": snapj}))
             }
@@ -220,9 +223,9 @@ impl ReplicaProp {
 }
 
 /// Property monitors evaluated on the real replica's effects and snapshots.
-fn self_monitors(_pid: &str, mon: &mut Monitor, s: &mut Session, events: &[Ev], snap: &zksync_consensus_bft::verif::Snapshot, op: &Value, out: &mut Out) {
-    let (g, e, sched) = (s.w.genesis, s.w.epoch, s.w.schedule.clone());
-    let me = s.w.key(s.rig.me).public();
+pub fn self_monitors(mon: &mut Monitor, w: &World, rig: &Rig, events: &[Ev], snap: &zksync_consensus_bft::verif::Snapshot, op: &Value, out: &mut Out) {
+    let (g, e, sched) = (w.genesis, w.epoch, w.schedule.clone());
+    let me = w.key(rig.me).public();
     // C05: views and certificates never decrease (within one incarnation and across restarts)
     if snap.view.0 < mon.last_view {
         out.oracle_fail("monotone:view", "the replica's view decreased", op.clone());
@@ -299,9 +302,9 @@ fn self_monitors(_pid: &str, mon: &mut Monitor, s: &mut Session, events: &[Ev], 
         }
     }
     // C03: no equivocation over everything this key ever sent (all incarnations)
-    check_equivocation(&s.rig.sent_history, op, out);
+    check_equivocation(&rig.sent_history, op, out);
     // C16b: vote caches bounded by the committee size
-    let n = s.weights.len();
+    let n = w.weights.len();
     mon.max_commit_views = mon.max_commit_views.max(snap.commit_views);
     mon.max_commit_qcs = mon.max_commit_qcs.max(snap.commit_qcs.1);
     mon.max_timeout_qcs = mon.max_timeout_qcs.max(snap.timeout_qcs);
